@@ -103,8 +103,8 @@ pub fn run_with(bin: &Path, args: &[String], timeout_ms: u64, wrapper: Option<&[
     RunResult { code, signal: if timed_out { None } else { signal }, timed_out, stdout, stderr, wall_ms: t0.elapsed().as_millis(), spawn_error: None }
 }
 
-/// split a text into (non-numeric text, number) tokens
-fn tokens(s: &str) -> Vec<(String, Option<f64>)> {
+/// split a text into (non-numeric text, number, decimals printed) tokens
+fn tokens(s: &str) -> Vec<(String, Option<(f64, i32)>)> {
     let mut out = vec![];
     let mut cur = String::new();
     let b: Vec<char> = s.chars().collect();
@@ -118,8 +118,10 @@ fn tokens(s: &str) -> Vec<(String, Option<f64>)> {
                 j += 1;
             }
             let txt: String = b[i..j].iter().collect();
-            if let Ok(x) = txt.trim_end_matches('.').parse::<f64>() {
-                out.push((std::mem::take(&mut cur), Some(x)));
+            let core = txt.trim_end_matches('.');
+            if let Ok(x) = core.parse::<f64>() {
+                let decimals = core.split_once('.').map(|(_, d)| d.len() as i32).unwrap_or(0);
+                out.push((std::mem::take(&mut cur), Some((x, decimals))));
                 if txt.ends_with('.') {
                     cur.push('.');
                 }
@@ -134,21 +136,24 @@ fn tokens(s: &str) -> Vec<(String, Option<f64>)> {
     out
 }
 
-/// same text, numbers within `atol` (absolute) or 1e-5 relative; "-0.00" equals "0.00"
-pub fn reports_equal(a: &str, b: &str, atol: f64) -> bool {
+/// Same text; numbers may differ by one unit of their last printed digit (two evaluations, or an
+/// evaluation of rounded data, can fall on either side of a rounding boundary) plus `extra` (absolute)
+/// plus 1e-5 relative; integers must be equal unless `extra` allows otherwise; "-0.00" equals "0.00".
+pub fn reports_equal(a: &str, b: &str, extra: f64) -> bool {
     let (ta, tb) = (tokens(a), tokens(b));
     if ta.len() != tb.len() {
         return false;
     }
     for (x, y) in ta.iter().zip(tb.iter()) {
-        // a sign that flips around zero changes the text token by a '-': compare texts without it
         if x.0 != y.0 {
             return false;
         }
         match (x.1, y.1) {
             (None, None) => {}
-            (Some(p), Some(q)) => {
-                if (p - q).abs() > atol + 1e-5 * p.abs().max(q.abs()) {
+            (Some((p, dp)), Some((q, dq))) => {
+                let d = dp.min(dq);
+                let unit = if d > 0 { 1.0001 * 10f64.powi(-d) } else { 0.0 };
+                if (p - q).abs() > unit + extra + 1e-5 * p.abs().max(q.abs()) {
                     return false;
                 }
             }
@@ -160,5 +165,5 @@ pub fn reports_equal(a: &str, b: &str, atol: f64) -> bool {
 
 /// all numbers of a text, in order
 pub fn numbers(s: &str) -> Vec<f64> {
-    tokens(s).into_iter().filter_map(|t| t.1).collect()
+    tokens(s).into_iter().filter_map(|t| t.1.map(|x| x.0)).collect()
 }
